@@ -624,3 +624,30 @@ pub fn domain_discard(s: &Scan) -> Option<String> {
     }
     None
 }
+
+/// Scan-level predicate for KF-ITEM-FIRST-LIST: a list item whose first block is itself a list.
+pub fn has_item_first_list(s: &Scan) -> bool {
+    let mut found = false;
+    walk(&s.blocks, &mut |b, _| {
+        if matches!(b.kind, BKind::Item) {
+            if let Some(first) = b.children.iter().find(|c| !matches!(c.kind, BKind::Html)) {
+                if matches!(first.kind, BKind::List { .. }) {
+                    found = true;
+                }
+            }
+        }
+    });
+    found
+}
+
+/// Crash-related known-finding domains (C03).
+pub fn crash_domain_discard(s: &Scan) -> Option<String> {
+    use crate::framework::feature_on;
+    if !feature_on("item_first_block") && has_item_first_block(s) {
+        return Some("known-domain: list item starts with a code block, quote, table or rule".into());
+    }
+    if !feature_on("item_first_list") && has_item_first_list(s) {
+        return Some("known-domain: list item starts with a list".into());
+    }
+    None
+}
